@@ -16,7 +16,8 @@ THOROUGH = dict(worlds=256, runs=6000, seconds=28)
 BBTYPES = {"bbA": [["a", "b"], ["y"]], "bbB": [["d"], ["q", "qn"]], "bbC": [["p"], ["z"]],
            "bbD": [["a", "y"], ["y"]],     # malformed on purpose: pin y listed in both directions (an invalid argument)
            "bbE": [["p"], ["k.z"]],        # a pin named like the pin of a nested instance (what a child exporting one needs)
-           "bbF": [["p"], ["k.p"]]}        # ... here the exported node is the nested instance's INPUT pin
+           "bbF": [["p"], ["k.p"]],        # ... here the exported node is the nested instance's INPUT pin
+           "bbG": [[], ["y"]]}             # a source: no input pins (built with the constructor's default for `inputs`)
 
 CHILDREN = {
     "ch1": {"name": "ch1", "bbs": {}, "nodes": {
@@ -44,7 +45,7 @@ CHILDREN = {
         "v": ["buf", ["m"], True]}},
 }
 CHILD_NODE_NAMES = sorted({n for ch in CHILDREN.values() for n in ch["nodes"] if "." not in n})
-CHILD_FOR_TYPE = {"bbA": ["ch1", "ch5", "ch4"], "bbB": ["ch2"], "bbC": ["ch3"], "bbD": ["ch1"], "bbE": ["ch7"], "bbF": ["ch8"]}
+CHILD_FOR_TYPE = {"bbA": ["ch1", "ch5", "ch4"], "bbB": ["ch2"], "bbC": ["ch3"], "bbD": ["ch1"], "bbE": ["ch7"], "bbF": ["ch8"], "bbG": ["ch1"]}
 
 BASE_NAMES = ["a", "b", "c", "d", "e", "f", "g", "h"]
 ODD_NAMES = ["3x", "u.y", "u.a", "u_a", "u_b", "u_y", "v_q", "v_b", "u_k", "zz", ""]
@@ -86,6 +87,7 @@ class Model:
         return True
 
     def apply(self, op):
+        op = [_plain(a) for a in op]
         k = op[0]
         if k == "add":
             _, n, t, fi, fo, out, uid = op
@@ -146,7 +148,7 @@ class Model:
                     return
             else:
                 _, inst, cname = op
-                if inst not in self.bbs:
+                if inst not in self.bbs or cname == "self":
                     return
                 tname = self.bbs.pop(inst)
                 for p in BBTYPES[tname][0] + BBTYPES[tname][1]:
@@ -181,12 +183,29 @@ def _pick_names(rng, model, k_max=3, allow_missing=0.15, allow_dup=0.1):
 
 
 def _arg(rng, names):
-    """Present a name list the way callers do: None, str or list."""
+    """Present a name list the way callers do: None, str, list - or a one-shot iterable (the docstrings promise
+    "str or iterable of str"), encoded in the JSON case as {"iter": [...]} and turned into iter([...]) at the call."""
     if not names:
         return None
     if len(names) == 1 and rng.random() < 0.6:
         return names[0]
+    if rng.random() < 0.07:
+        return {"iter": list(names)}
     return list(names)
+
+
+def _plain(x):
+    """The list behind an {"iter": [...]} marker (for the model and the reference-side classification)."""
+    return list(x["iter"]) if isinstance(x, dict) and set(x) == {"iter"} else x
+
+
+def _live(x):
+    """What is actually passed to the library."""
+    if isinstance(x, dict) and set(x) == {"iter"}:
+        return iter(list(x["iter"]))
+    if isinstance(x, dict):
+        return {k: _live(v) for k, v in x.items()}
+    return x
 
 
 def gen_op(rng, model, w):
@@ -277,6 +296,9 @@ def gen_op(rng, model, w):
                 items = list(conns.items())
                 rng.shuffle(items)
                 conns = dict(items)
+            for p in list(conns):
+                if rng.random() < 0.06:
+                    conns[p] = rng.choice(([conns[p]], {"iter": [conns[p]]}))   # a net given as list / one-shot iterable
         return ["add_blackbox", tname, inst, conns]
     if k == "add_subcircuit":
         cname = rng.choice(sorted(CHILDREN))
@@ -302,8 +324,14 @@ def gen_op(rng, model, w):
                 items = list(conns.items())
                 rng.shuffle(items)
                 conns = dict(items)
+            for p in list(conns):
+                if rng.random() < 0.06:
+                    conns[p] = rng.choice(([conns[p]], {"iter": [conns[p]]}))
         return ["add_subcircuit", cname, inst, conns, rng.random() < 0.85]
     # fill_blackbox
+    if model.bbs and rng.random() < 0.05:
+        # self-referential argument: the circuit used as the implementation of one of its own instances
+        return ["fill_blackbox", rng.choice(sorted(model.bbs)), "self"]
     if model.bbs and rng.random() < 0.85:
         inst = rng.choice(sorted(model.bbs))
         tname = model.bbs[inst]
@@ -334,6 +362,20 @@ def gen(rng, tier):
         for i in rng.sample(range(1, 8), rng.randint(1, 3)):
             w[i] = 0.0
     ops = []
+    if start is None and rng.random() < 0.03:
+        # self-referential fill: the only way `c.fill_blackbox(inst, c)` gets past the io check is a circuit whose own
+        # inputs / outputs are called like the pins of the instance's type
+        tname = rng.choice(("bbA", "bbB", "bbC"))
+        ins, outs = BBTYPES[tname]
+        for p in ins:
+            ops.append(["add", p, "input", None, None, False, False])
+        for p in outs:
+            ops.append(["add", p, rng.choice(("and", "or", "xor", "not" if len(ins) == 1 else "nand")), list(ins[:1] if len(ins) == 1 else ins), None, True, False])
+        inst = rng.choice(INSTS[:5])
+        ops.append(["add_blackbox", tname, inst, {p: p for p in ins} if rng.random() < 0.7 else None])
+        ops.append(["fill_blackbox", inst, "self"])
+        for op in ops:
+            model.apply(copy.deepcopy(op))
     for _ in range(rng.randint(30, 90) if (tier == "thorough" and rng.random() < 0.3) else rng.randint(5, 40)):
         if rng.random() < 0.02:
             # "uid storm": many uid adds of one name, to walk the suffix chain (_0 .. _10, _70, ...)
@@ -354,6 +396,7 @@ def gen(rng, tier):
 
 # ----------------------------------------------------------------------------
 def _aslist(x):
+    x = _plain(x)
     if x is None:
         return []
     return [x] if isinstance(x, str) else list(x)
@@ -404,18 +447,23 @@ def classify_illegal(op, before, bbs_before):
         for p, net in (conns or {}).items():
             if p not in ins and p not in outs:
                 return "connection to an undefined pin"
-            if net and net not in nodes and not (isinstance(net, str) and net.startswith(inst + ".")):
-                return f"connection to missing node {net}"
+            for n1 in _aslist(net):
+                if n1 and n1 not in nodes and not (isinstance(n1, str) and n1.startswith(inst + ".")):
+                    return f"connection to missing node {n1}"
         return None
     if k == "add_subcircuit" and op[1] != "self":
         _, cname, inst, conns, strip = op
         ch = CHILDREN[cname]
+        conns = None if conns is None else {p: _plain(v) for p, v in conns.items()}
+        if ch["nodes"] and (not inst or inst[0] in "0123456789"):
+            return "name"          # every node it creates would be called <inst>_<n>: an illegal node name
         io = [n for n, v in ch["nodes"].items() if v[0] == "input" or v[2]]
         for p, net in (conns or {}).items():
             if p not in io:
                 return "connection key is not child io"
-            if net and net not in nodes and not (isinstance(net, str) and net.startswith(inst + "_")):
-                return f"connection to missing node {net}"
+            for n1 in _aslist(net):
+                if n1 and n1 not in nodes and not (isinstance(n1, str) and n1.startswith(inst + "_")):
+                    return f"connection to missing node {n1}"
         for n in ch["nodes"]:
             if f"{inst}_{n}" in nodes:
                 return f"name {inst}_{n} is taken"
@@ -431,22 +479,22 @@ def _apply(cg, c, op, children, bbtypes):
     k = op[0]
     if k == "add":
         _, n, t, fi, fo, out, uid = op
-        return c.add(n, t, fanin=fi, fanout=fo, output=out, uid=uid)
+        return c.add(n, t, fanin=_live(fi), fanout=_live(fo), output=out, uid=uid)
     if k == "connect":
-        return c.connect(op[1], op[2])
+        return c.connect(_live(op[1]), _live(op[2]))
     if k == "disconnect":
-        return c.disconnect(op[1], op[2])
+        return c.disconnect(_live(op[1]), _live(op[2]))
     if k == "remove":
-        return c.remove(op[1])
+        return c.remove(_live(op[1]))
     if k == "set_output":
-        return c.set_output(op[1], op[2])
+        return c.set_output(_live(op[1]), op[2])
     if k == "add_blackbox":
-        return c.add_blackbox(bbtypes[op[1]], op[2], None if op[3] is None else dict(op[3]))
+        return c.add_blackbox(bbtypes[op[1]], op[2], None if op[3] is None else _live(dict(op[3])))
     if k == "add_subcircuit":
         child = c if op[1] == "self" else children[op[1]]
-        return c.add_subcircuit(child, op[2], None if op[3] is None else dict(op[3]), strip_io=op[4])
+        return c.add_subcircuit(child, op[2], None if op[3] is None else _live(dict(op[3])), strip_io=op[4])
     if k == "fill_blackbox":
-        return c.fill_blackbox(op[1], children[op[2]])
+        return c.fill_blackbox(op[1], c if op[2] == "self" else children[op[2]])
     raise RuntimeError(f"unknown op {k}")
 
 
@@ -455,7 +503,14 @@ def run(case, ctx):
     from cgsim.core import state_digest
     c = ref.build(cg, case["start"]) if case.get("start") else cg.Circuit()
     children = {k: ref.build(cg, v) for k, v in CHILDREN.items()}
-    bbtypes = {k: cg.BlackBox(k, list(v[0]), list(v[1])) for k, v in BBTYPES.items()}
+    bbtypes = {}
+    for k, v in BBTYPES.items():
+        try:
+            # an empty pin list is left to the constructor's default (inputs=None / outputs=None)
+            bbtypes[k] = cg.BlackBox(k, **{a: list(p) for a, p in (("inputs", v[0]), ("outputs", v[1])) if p})
+        except Exception as e:
+            ctx.violate("C07.blackbox_type", f"BlackBox({k!r}, inputs={v[0] or 'default'}, outputs={v[1] or 'default'}) raised "
+                        f"{type(e).__name__}: {e}", {"rule": "blackbox_type", "op": "BlackBox"})
     exempt = set()       # instances for which the caller removed a pin node itself
     snap = ref.snapshot(c)
     pre = ref.wiring_violations(snap)
